@@ -1,3 +1,21 @@
 import RV.C04.Props
 open RV.C04
-#print axioms placeholder
+#print axioms pushdown_partial
+#print axioms eval_correct_partial
+#print axioms ask_correct_partial
+#print axioms construct_correct_partial
+#print axioms pushdown_bgp
+#print axioms pushdown_join_lazy
+#print axioms pushdown_join_strict
+#print axioms pushdown_union
+#print axioms pushdown_filter
+#print axioms pushdown_extend
+#print axioms pushdown_values
+#print axioms spec_bounds
+#print axioms bgp_perm
+#print axioms joinBag_comm
+#print axioms union_comm
+#print axioms pushdown_witness_K1
+#print axioms pushdown_witness_K2
+#print axioms pushdown_witness_K3
+#print axioms pushdown_unconditional_witness
